@@ -495,6 +495,11 @@ def run(chk: Check) -> int:
         found += 1
         chk.violation("delete_tags contradicts the property (precise): a key that never carried the tag - the tagged incr was issued while INCR was disabled and "
                       f"wrote nothing - is deleted by delete_tags (get -> {dprobe['observed']})", dprobe, signature="D73:disabled-incr-files-membership")
+    nprobe = taghist.negative_cache_probe()
+    if nprobe is not None:
+        found += 1
+        chk.violation("delete_tags contradicts the property (complete): a failure stored by a decorator declaring the tag (negative caching: the condition "
+                      f"returned the exception) is still served after delete_tags ({nprobe['observed']})", nprobe, signature="C12:negative-cache-entry-untagged")
     if interesting.get("SET_GONE_WHILE_MEMBER_ALIVE") and not found:
         raise HarnessError("a tag set was gone while a carrier was alive, yet no violation was derived - oracle bug")
     if proof is not None:
@@ -543,6 +548,7 @@ def run(chk: Check) -> int:
         "transaction_stage(oracle-judged)": tx_cov,
         "observed_not_judged": taghist.not_judged_probes(),
         "disabled_incr_probe": "a tagged incr that is disabled files no membership" if dprobe is None else dprobe,
+        "negative_cache_probe": "failures stored by @cache / @early / @hit (condition returns the exception) are removed by delete_tags" if nprobe is None else nprobe,
         "prefix_middleware_probe": "delete_tags finds the members through add_prefix" if probe is None else probe,
         "delete_tags_commands_judged": deltags_checked,
         "op_histogram": hist,
@@ -569,6 +575,16 @@ def run(chk: Check) -> int:
 
 def replay(chk: Check, path: str) -> int:
     c = json.loads(Path(path).read_text())
+    if "config" not in c and "ops" in c and "observed" in c and c.get("stage") != "tx":
+        # a real-code probe (no model history): run all three again
+        res = {"negative_cache_probe": taghist.negative_cache_probe(), "disabled_incr_probe": taghist.disabled_incr_probe(),
+               "prefix_middleware_probe": taghist.prefix_middleware_probe()}
+        print(json.dumps(res, default=str)[:1200])
+        if not any(v is not None for v in res.values()):
+            print("replay: no disagreement")
+            return 0
+        print(f"VIOLATION property={PROP} replay={path}")
+        return 1
     if c.get("stage") == "tx":
         r = tagtx.execute(c["ops"])
         print("\n".join(r.trace))
